@@ -7,6 +7,7 @@
 
 mod cachecmd;
 mod j;
+mod wirecmd;
 mod zonecmd;
 
 use serde_json::{json, Value};
@@ -54,6 +55,9 @@ fn main() {
     match args[1].as_str() {
         "cache-run" => cachecmd::cache_run(&args[2], &args[3]),
         "cache-threads" => cachecmd::cache_threads(&args[2], &args[3]),
+        "wire-decode" => wirecmd::wire_decode(&args[2], &args[3]),
+        "wire-roundtrip" => wirecmd::wire_roundtrip(&args[2], &args[3]),
+        "wire-encode" => wirecmd::wire_encode(&args[2], &args[3]),
         "zone-resolve" => zonecmd::zone_resolve(&args[2], &args[3]),
         other => {
             eprintln!("unknown command {other}");
